@@ -122,7 +122,9 @@ def write_ticks(case):
     t = 0
     ticks = {}
     for i, op in enumerate(case["ops"]):
-        if op["op"] in ("batch", "txn"):
+        if op["op"] == "batch" and op.get("reject"):
+            pass
+        elif op["op"] in ("batch", "txn"):
             t += 1
             ticks[i] = t
         elif op["op"] == "race":
@@ -134,8 +136,47 @@ def write_ticks(case):
     return ticks
 
 
+def rank_maps(case, obs):
+    """Histories with a refused batch: Badger's sequence hands out numbers also for the entries of a batch that is then refused,
+    so the change log has holes and continuation tokens (opaque to a client) are no longer list positions.  The final `seqs` op of
+    each dataset reports the sequence numbers really present; tokens are renumbered to their rank among them (a monotone map)."""
+    if not any(op.get("reject") for op in case["ops"]):
+        return {}
+    maps = {}
+    for i, op in enumerate(case["ops"]):
+        if op["op"] == "seqs" and i < len(obs.get("ops", [])):
+            maps[op["ds"]] = sorted(obs["ops"][i].get("seqs") or [])
+    return maps
+
+
 def case_term(codes, case, obs):
     """(case, observation) -> Coq term of type StoreCheck.tcase; reader tokens are resolved from the observation"""
+    rmaps = rank_maps(case, obs)
+    if rmaps:
+        import bisect
+        case = json.loads(json.dumps(case))
+        obs = json.loads(json.dumps(obs))
+
+        def rk(ds, t):
+            return bisect.bisect_left(rmaps.get(ds, []), t) if isinstance(t, int) and t > 0 and ds in rmaps else t
+        rawtok = {}
+        for i, op in enumerate(case["ops"]):
+            oo = obs["ops"][i] if i < len(obs.get("ops", [])) and isinstance(obs["ops"][i], dict) else {}
+            rev = op["op"] == "changes_rev" or (op["op"] == "hchanges" and op.get("reverse"))
+            if rev:
+                # a reverse token t > 0 below every sequence number present says "nothing below"; no dense token says
+                # that (0 = from the end): such reads are left out
+                key = (op["op"], op.get("reader"), op["ds"])
+                raw = rawtok.get(key, 0) if op.get("reader") else op.get("since", 0)
+                if op.get("reader") and "next" in oo:
+                    rawtok[key] = oo["next"]
+                if raw > 0 and rk(op["ds"], raw) == 0:
+                    op["op"] = "seqs"
+                    continue
+            if "since" in op:
+                op["since"] = rk(op["ds"], op["since"])
+            if "next" in oo:
+                oo["next"] = rk(op["ds"], oo["next"])
     ns = obs.get("ns") or {}
     ticks = write_ticks(case)
     terms = []
@@ -143,7 +184,13 @@ def case_term(codes, case, obs):
     for i, op in enumerate(case["ops"]):
         oo = obs["ops"][i] if i < len(obs.get("ops", [])) else {}
         k = op["op"]
-        if k == "batch":
+        if k == "batch" and op.get("reject"):
+            # a batch the store must refuse as a whole (nil reference in its last entity): no write in the model;
+            # accepted without an error = an observation no model and no spec explains
+            if not oo.get("err"):
+                terms.append("SChanges %d 0 0 false [] (-7)" % ds_code(case, op["ds"]))
+                terms.append("SEntities %d [] [[]]" % ds_code(case, op["ds"]))
+        elif k == "batch":
             lens = oo.get("lens") or [0] * len(op["ents"])
             ents = vlib.coq_list([ent_term(codes, e, l) for e, l in zip(op["ents"], lens)])
             bad = bool(oo.get("err") or oo.get("panic"))
@@ -257,6 +304,8 @@ def case_term(codes, case, obs):
             if op.get("reader"):
                 tokens[key] = oo.get("next", 0)
             terms.append("SRev %d %s %d %s %s" % (ds_code(case, op["ds"]), vlib.zlit(since), op.get("limit", 0), ents, vlib.zlit(nxt)))
+        elif k == "seqs":
+            pass
         elif k == "rawkeys":
             for fam, keys in sorted((oo.get("raw") or {}).items(), key=lambda kv: int(kv[0])):
                 ks = vlib.coq_list([vlib.coq_list(["%d%%N" % b for b in bytes.fromhex(h)]) for h in keys])
@@ -295,6 +344,8 @@ def with_id(i, c):
 
 NULLPAIR = ({"props": {"p1": "a", "p2": "@@null"}, "refs": {}}, {"props": {"p1": "a", "p3": True}, "refs": {}})
 
+TOMBPAIR = ({"deleted": True, "props": {"p1": "a"}, "refs": {"r1": "e2"}}, {"deleted": True, "props": {"p1": "a"}, "refs": {"r1": "e3"}})
+
 # engineered pairs (old, new) around the write-time equality shortcut
 ENGINEERED = [
     # F01a: deleted -> un-deleted with one more 15-byte property (",\"ns3:p4\":\"xyz\"" vs ",\"deleted\":true")
@@ -311,12 +362,14 @@ ENGINEERED = [
     ({"props": {"p1": 1}, "refs": {}}, {"deleted": True, "props": {"p1": 1}, "refs": {}}),
     # a null-valued property (Go API) replaced by another key of the same serialized length
     NULLPAIR,
+    # two tombstones that differ in one reference target only
+    TOMBPAIR,
     # identical
     ({"props": {"p1": 22, "p3": [1, 2]}, "refs": {"r2": ["e1", "e3"]}}, {"props": {"p1": 22, "p3": [1, 2]}, "refs": {"r2": ["e1", "e3"]}}),
 ]
 
 
-def gen_writes(rng, ndatasets, nops, pool, rich=True):
+def gen_writes(rng, ndatasets, nops, pool, rich=True, reject=False):
     """a list of write ops over datasets[:ndatasets]"""
     ops = []
     memo = {}
@@ -330,6 +383,14 @@ def gen_writes(rng, ndatasets, nops, pool, rich=True):
                 ops.append({"op": "txn", "sets": sets})
                 continue
         d = DS_NAMES[rng.below(ndatasets)]
+        if reject and rng.chance(1, 8):
+            # a refused batch (its contents must leave no trace, also not in what the next batch is compared with)
+            ops.append({"op": "batch", "ds": d, "ents": gen_batch(rng, pool, dict(memo), d, rich), "reject": True})
+            if rng.chance(1, 2):
+                ops.append({"op": "batch", "ds": d, "ents": json.loads(json.dumps(ops[-1]["ents"]))})
+                for e in ops[-1]["ents"]:
+                    memo[(d, e["id"])] = {k: v for k, v in e.items() if k != "id"}
+            continue
         ops.append({"op": "batch", "ds": d, "ents": gen_batch(rng, pool, memo, d, rich)})
     return ops
 
@@ -356,6 +417,34 @@ def gen_race(rng, pool, memo, ds, reader, rich=True):
     return op
 
 
+SAME_LEN = [["a", "b"], ["bb", "zz"], ["xyz", "uvw"], [1, 2]]
+
+
+def same_length_mutation(rng, prev):
+    """prev with ONE property value or ONE reference target replaced by a different one of the same serialized length
+    (deleted flag, key sets and every other value untouched): still a different version"""
+    c = json.loads(json.dumps(prev))
+    if c.get("refs") and rng.chance(2, 3):
+        k = rng.choice(sorted(c["refs"]))
+        v = c["refs"][k]
+        if isinstance(v, list) and v:
+            j = rng.below(len(v))
+            v[j] = rng.choice([i for i in IDS if i != v[j]])
+        elif isinstance(v, str):
+            c["refs"][k] = rng.choice([i for i in IDS if i != v])
+        return c
+    for k in sorted(c.get("props") or {}):
+        for grp in SAME_LEN:
+            if c["props"][k] in grp and type(c["props"][k]) in [type(g) for g in grp]:
+                alts = [g for g in grp if g != c["props"][k]]
+                if alts:
+                    c["props"][k] = rng.choice(alts)
+                    return c
+    if not c.get("refs"):
+        c.setdefault("refs", {})["r1"] = rng.choice(IDS)   # no mutable value: add a reference
+    return c
+
+
 def gen_batch(rng, pool, memo, ds, rich):
     n = rng.choice([1, 1, 1, 2, 2, 3])
     ents = []
@@ -371,6 +460,8 @@ def gen_batch(rng, pool, memo, ds, rich):
                 c.pop("deleted")
             else:
                 c["deleted"] = True
+        elif r < 6 and prev is not None and rng.chance(1, 2):
+            c = same_length_mutation(rng, prev)       # one value or one reference target swapped for another of the same length
         elif r < 6:
             old, new = rng.choice(ENGINEERED)
             c = new if prev is not None and json.dumps(prev, sort_keys=True) == json.dumps(old, sort_keys=True) else old
